@@ -65,3 +65,26 @@ def _v8(repo, mod):
 @variant("C32", "twin-inlined-owner-check", TR, None, "ownership check inlined instead of the decorator: the property still holds")
 def _v9(repo, mod):
     return mod.source.replace("    @_early_return\n    def executed_code_object(self, code_object_id: int) -> None:  # noqa: D102\n", "    def executed_code_object(self, code_object_id: int) -> None:  # noqa: D102\n        if self.is_disabled():\n            return\n        self.check()\n", 1)
+
+
+SUB = "pynguin.testcase.subprocess_executor"
+
+
+@variant("C32", "empty-test-zero-timeout", EXE, "C32.timeout", "timeout proportional to the size: 0 s for the empty test case (the repaired defect)")
+def _v20(repo, mod):
+    fn = repo.func(EXE, "TestCaseExecutor.execute")
+    c = find_node(fn, lambda n: isinstance(n, ast.Call) and norm(n) == "max(1, test_case.size())")
+    return replace_node(mod, c, "test_case.size()")
+
+
+@variant("C32", "empty-test-zero-timeout-subprocess", SUB, "C32.timeout", "same in the subprocess executor")
+def _v21(repo, mod):
+    c = find_node(repo.module(SUB).tree, lambda n: isinstance(n, ast.Call) and norm(n) == "max(1, test_case.size())")
+    return replace_node(mod, c, "test_case.size()")
+
+
+@variant("C32", "twin-floor-written-differently", EXE, None, "max(size, 1) stays silent")
+def _v22(repo, mod):
+    fn = repo.func(EXE, "TestCaseExecutor.execute")
+    c = find_node(fn, lambda n: isinstance(n, ast.Call) and norm(n) == "max(1, test_case.size())")
+    return replace_node(mod, c, "(test_case.size() or 1)")
